@@ -165,7 +165,9 @@ func TestC12(t *testing.T) {
 			}
 			return
 		}
-		arithmetic(rec)
+		if hx.FirstShard() {
+			arithmetic(rec)
+		}
 
 		fts := []fit.FileType{fit.FileTypeActivity, fit.FileTypeActivity, fit.FileTypeMonitoringA, fit.FileTypeMonitoringB, fit.FileTypeSchedules, fit.FileTypeCourse, fit.FileTypeWeight, fit.FileTypeMonitoringDaily}
 		hx.RapidCheck(t, rec, "sequences", func(rt *rapid.T, fail func(string, string, any)) {
